@@ -601,8 +601,6 @@ class PathMatches(Matcher):
         assert len(args) == self._group_count, (
             "required number of arguments " "not found"
         )
-        if not len(args):
-            return self._path
         converted_args = []
         for a in args:
             if not isinstance(a, (unicode_type, bytes)):
@@ -615,6 +613,9 @@ class PathMatches(Matcher):
 
         For example: Given the url pattern /([0-9]{4})/([a-z-]+)/, this method
         would return ('/%s/%s/', 2).
+
+        The reverse string is a ``%``-format string: a literal ``%`` in the
+        pattern is returned as ``%%``.
         """
         pattern = self.regex.pattern
         if pattern.startswith("^"):
@@ -638,7 +639,7 @@ class PathMatches(Matcher):
                         # If we can't unescape part of it, we can't
                         # reverse this url.
                         return (None, None)
-                    pieces.append("%s" + unescaped_fragment)
+                    pieces.append("%s" + unescaped_fragment.replace("%", "%%"))
             else:
                 try:
                     unescaped_fragment = re_unescape(fragment)
@@ -646,7 +647,7 @@ class PathMatches(Matcher):
                     # If we can't unescape part of it, we can't
                     # reverse this url.
                     return (None, None)
-                pieces.append(unescaped_fragment)
+                pieces.append(unescaped_fragment.replace("%", "%%"))
 
         return "".join(pieces), self.regex.groups
 
